@@ -125,3 +125,5 @@ PROP = {'title': 'Vector, dim and matrix arithmetic obeys the exact ring and mod
                  'although DESIGN.md lists sizes 2-4 only',
                  'floating-point functions of the module (rotation_*, exponential_pade, logarithm, sqrt, normalize, length, angle_between) '
                  'are outside the statement (exact scalars only)']}
+
+PROP['rule'] += ' Builders called with named (lvalue) scalars of the move-observable symbolic type: matrix::row, matrix(row,row), vector/dim constructors, fill, push_back -- results equal the plain arrays and the scalars keep their values; identity<Matrix> itself for all 16 shapes (also non-square) against the Kronecker delta.'
